@@ -32,7 +32,7 @@ TMP_ROOT = os.path.join(VERIF_ROOT, ".tmp")
 PY = sys.executable
 
 
-class CaseTimeout(Exception):
+class CaseTimeout(BaseException):
     pass
 
 
